@@ -270,6 +270,15 @@ func c18Wire(c *fw.Case) (o fw.Outcome) {
 	r := c.R
 	o.Nontrivial = true
 	cfg := genEmuConfig(r)
+	if (c.Idx/8)%3 == 1 { // by index: one wire case in three names a HOST where an address may stand; ConnectToAmf must get the name
+		name := pick(r, "localhost", "LocalHost", "localhost", hostsName(r))
+		if (c.Idx/24)%2 == 0 {
+			cfg.AmfIP = name
+		} else {
+			cfg.StgIP = name
+		}
+		o.Tag("host-name-as-address")
+	}
 	v := pick(r, [5]int{1, 1, 0, 0, 1}, [5]int{2, 1, 1, 1, 0}, [5]int{1, 0, 0, 0, 0})
 	cfg.Reg, cfg.Pdu, cfg.Svc, cfg.Rel, cfg.Dereg = v[0], v[1], v[2], v[3], v[4]
 	ch := genChoices(r, cfg.Reg)
